@@ -118,7 +118,7 @@ class C10(Prop):
     k2_invs = {'svc'}          # the T2 invariants (Inv/AllRun.invs_b) this property answers for on real snapshots
     num = 10
     regions = {'quick': [('core', 150), ('block', 60), ('routers', 40), ('renege', 50), ('preempt', 60), ('sched', 50),
-                         ('schedpre', 40), ('slotted', 40), ('dyn', 30), ('ps', 20), ('all', 60)]}
+                         ('schedpre', 40), ('slotted', 40), ('dyn', 30), ('ps', 20), ('all', 60), ('batch_mix', 60), ('core_mix', 20)]}
     rule = ('one case = one observed run; the event list has every arrival/batch/service sample returned by the distribution objects, '
             'every arrival event, customer creation, service start, interruption and service record; non-trivial = >= 2 arrival streams, '
             'a batch different from 1 and >= 10 checked service records, or a malformed-sample run in which the invalid sample was drawn; '
@@ -141,6 +141,10 @@ class C10(Prop):
         return js
 
     def adjust(self, cfg, job):
+        # a share of the runs hands its times to the engine through ciw's arithmetic on distributions (CombinedDistribution):
+        # the value the engine receives is the combination, and THAT is what must be validated
+        if random.Random('combine/%s/%s' % (cfg.get('region'), job.get('gseed'))).random() < (0.5 if job.get('poison') else 0.15):
+            cfg['combine'] = True
         if not job.get('poison'):
             return cfg
         rng = random.Random('poison/%d' % job['gseed'])
